@@ -24,7 +24,10 @@ def spec(tier: str, seed: int, which: str = "C18") -> Spec:
         fams = [Family(f"K2-first-{op}", H.make_harness(2, which, [op], n_forests=H.GUIDED_FORESTS), per_path_timeout=3.0, variables=var) for op in ops]
         fams += [Family(f"K2-sequence-forest-first-{op}", H.make_harness(2, which, [op], forest=H.SEQ_FOREST), per_path_timeout=3.0, variables=var) for op in H.SEQ_FIRST_OPS]
     else:
-        fams = [Family(f"K3-first-{op}-forest{f}", H.make_harness(3, which, [op], forest=f, last_ops=H.THIRD_OPS), per_path_timeout=3.0, variables=var) for op in ops for f in range(H.FALSY_FOREST)]
+        fams = [Family(f"K3-first-{op}-forest{f}", H.make_harness(3, which, [op], forest=f, last_ops=H.THIRD_OPS), per_path_timeout=3.0, variables=var) for op in ops for f in range(H.GUIDED_FORESTS)]
+        # the forest with two sequence / optional sequence fields: histories of 3 after the first operations that touch sequences, of 2 after all others
+        fams += [Family(f"K3-first-{op}-forest{H.SEQ_FOREST}", H.make_harness(3, which, [op], forest=H.SEQ_FOREST, last_ops=H.THIRD_OPS), per_path_timeout=3.0, variables=var) for op in H.SEQ_FIRST_OPS]
+        fams += [Family(f"K2-sequence-forest-first-{op}", H.make_harness(2, which, [op], forest=H.SEQ_FOREST), per_path_timeout=3.0, variables=var) for op in ops if op not in H.SEQ_FIRST_OPS]
     # guided families (C18 only): a stale predecessor is created first, then a longer history over a
     # reduced alphabet follows
     KS = 4
